@@ -143,16 +143,21 @@ def qsv_equal(a, b):
     return False
 
 
-PRELUDE = '''From VF Require Import Base.Prelude Gen.Enums Gen.Configs Model.Recipe Model.Check Model.Graph Model.Plan.
+PRELUDE = '''From VF Require Import Base.Prelude Gen.Enums Gen.Configs Gen.Scopes Model.Recipe Model.Check Model.Graph Model.Plan.
 Open Scope Z_scope.
 Definition mk_matches (t : list (Z * Z)) (r s : Z) : bool :=
   existsb (fun p => Z.eqb (fst p) r && Z.eqb (snd p) s) t.
 Definition J_store (s : list (name_t * vterm)) : J :=
   Jlist (fun kv => JL [J_name (fst kv); J_vterm (snd kv)]) s.
-Definition run_case (c : model * state * list (Z * Z) * list (list (Z * bool)) * option (list name_t)) : list Z :=
-  let '(m, rules, mt, scopes, stats) := c in
+Definition mk_scope_id (t : list ((Z * list stok) * Z)) (gi : Z) (toks : list stok) : Z :=
+  match find (fun e => Z.eqb (fst (fst e)) gi && list_eqb stok_eqb (snd (fst e)) toks) t with
+  | Some e => snd e | None => -1 end.
+Definition case_t : Type :=
+  model * state * list (Z * Z) * list ((Z * list stok) * Z) * list (list bool) * option (list name_t).
+Definition run_case (c : case_t) : list Z :=
+  let '(m, rules, mt, sct, scopes, stats) := c in
   flat (Jres (fun r => JL [Jlist J_tplan (fst r); J_store (snd r)])
-             (plan_checked (mk_matches mt) rules m scopes stats)).
+             (plan_checked (mk_matches mt) rules (mk_scope_id sct) m scopes stats)).
 '''
 
 
@@ -195,7 +200,18 @@ def main():
         code = m.operatorCodes[o.opcodeIndex].builtinCode
         a.append(bool(code == 126 and o.builtinOptions is not None and o.builtinOptions.adjY))
       adj.append(a + [False, False])
-    sc_ids = [[(sid(s), f) for s, f in zip(sg, fl)] for sg, fl in zip(scopes, adj)]
+    # scope table: (subgraph, token list) -> interned scope string, for both
+    # the ops' result lists and the virtual INPUT/OUTPUT ops
+    tok_rows = []
+    for gi, g in enumerate(m.subgraphs):
+      outs_lists = [list(o.outputs) for o in g.operators] + [list(g.inputs), []]
+      for outs, sc in zip(outs_lists, scopes[gi]):
+        toks = []
+        for x in outs:
+          if int(x) != -1:
+            toks += [f'TName {vlib.zlit(int(x))}', 'TLit 59']
+        tok_rows.append(f'(({gi}, {vlib.coq_list(toks)}), {sid(sc)})')
+    adj = [a[:-2] for a in adj]
     for rg in rm._scope_configs:  # pylint: disable=protected-access
       rid(rg)
     pairs = [f'({r}, {s})' for rg, r in rid.d.items() for sc, s in sid.d.items()
@@ -210,11 +226,12 @@ def main():
       st_lit = f'(Some {vlib.coq_list(names)})'
     model_lit = cg.c_model(ctx, m)
     lit = (f'({model_lit}, {c_state(rm, rid, oid)}, {vlib.coq_list(pairs)}, '
-           f'{vlib.coq_list([vlib.coq_list([f"({a}, {vlib.coq_bool(b)})" for a, b in x]) for x in sc_ids])}, {st_lit})')
+           f'{vlib.coq_list(tok_rows)}, '
+           f'{vlib.coq_list([vlib.coq_list([vlib.coq_bool(b) for b in x]) for x in adj])}, {st_lit})')
     cases.append((lit, ctx, m, stats0, caller, impl, desc))
   shards = vlib.shard(list(range(len(cases))), 40)
   files = [(f'plan_{si}', PRELUDE +
-            'Definition cases : list (model * state * list (Z * Z) * list (list (Z * bool)) * option (list name_t)) := [\n'
+            'Definition cases : list case_t := [\n'
             + ';\n'.join(cases[i][0] for i in idxs) +
             '\n].\nEval vm_compute in (map run_case cases).\n')
            for si, idxs in enumerate(shards)]
@@ -299,20 +316,14 @@ def main():
       if bad:
         mism.append({'case': i, 'recipe': desc, 'what': bad})
         continue
-      # caller's statistics dict after the call vs the model's store
+      # C14: the caller's statistics dict is not modified (the model's store is
+      # a private copy since the fix of F10)
       if stats0 is not None:
-        keys_model = [tuple([kv[0][0]] + list(kv[0][1])) for kv in jstore]
-        keys_impl = [tuple(ev._key(k)) for k in caller]  # pylint: disable=protected-access
-        if keys_model != keys_impl:
-          mism.append({'case': i, 'recipe': desc, 'what': 'statistics dict keys after the call',
-                       'impl': list(caller)[:6]})
-          continue
-        for kv, k in zip(jstore, caller):
-          want = ev.minmax(kv[1], 0, 0)
-          if not qsv_equal(want, caller[k]):
-            mism.append({'case': i, 'recipe': desc, 'what':
-                         f'statistics entry {k} after the call differs from model term {kv[1]}'})
-            break
+        if list(caller) != list(stats0) or not all(
+            qsv_equal(caller[k], stats0[k]) for k in stats0):
+          viol.append({'key': 'C14:stats-mutated', 'what':
+                       'generate_quantization_parameters modified the caller\'s '
+                       'calibration result', 'input': {'recipe': desc}})
       if nontriv:
         nontrivial.add(lit)
       if len(samples) < 3:
